@@ -13,6 +13,10 @@ def obligations(tier):
               bounds="two consecutive dispatches over the same line texts with independent symbolic acceptance patterns"),
            Ob("C17.lookup_twice", "CH", "harness.h_sync", "hint_invisible", 300, {"VF_K": 3}, funcs=("chartparse.sync.BPMEvents.timestamp_at_tick",),
               bounds="the same query twice on one tempo map gives the same answer (symbolic ticks)")]
+    obs.append(Ob("C17.metadata_twice", "CH", "harness.h_extra", "metadata_twice", 900, funcs=("chartparse.metadata.Metadata.from_chart_lines",),
+                  bounds="two [Song] sections in a row, the first possibly failing half-way"))
+    obs.append(Ob("C17.kernel_sequence", "CH", "harness.h_extra", "kernel_sequence", 300, funcs=("chartparse.tick.seconds_from_ticks_at_bpm",),
+                  bounds="the real kernel twice in a row"))
     if tier == "thorough":
         obs.append(Ob("C17.history.len2", "CH", "harness.h_hist", "history_free", 1800, {"VF_HIST": 1, "VF_HLEN": 2},
                       funcs=("chartparse.chart.Chart.from_file",), bounds="every history of two earlier parses over the corpus (10^3 cases)"))
